@@ -15,7 +15,9 @@ use serde_json::{json, Value};
 use std::collections::BTreeSet;
 use std::collections::HashSet;
 
-const UNIVERSE: &[&str] = &["t1", "t2", "t3", "zz"];
+// rule tags and op tags in mixed case (tag names are case-sensitive and unordered), plus a tag no rule carries
+const UNIVERSE: &[&str] = &["t1", "t2", "t3", "zz", "Zeta", "alpha", "Beta", "ALPHA"];
+const RULE_TAGS: &[&str] = &["t1", "t2", "t3", "Zeta", "alpha", "Beta", "t1", "t2"];
 
 #[derive(Clone, Debug)]
 enum Op {
@@ -71,7 +73,7 @@ fn set_apply(s: &mut BTreeSet<String>, o: &Op) {
     }
 }
 fn gen_tags(r: &mut Rng) -> Vec<String> {
-    let n = r.range(0, 3);
+    let n = r.range(0, 4);
     (0..n).map(|_| r.pick(UNIVERSE).to_string()).collect()
 }
 fn gen_rules(r: &mut Rng) -> Vec<String> {
@@ -82,7 +84,7 @@ fn gen_rules(r: &mut Rng) -> Vec<String> {
     let shared = if r.chance(1, 3) { Some(gen::pattern(r)) } else { None };
     for _ in 0..n {
         let pat = match &shared { Some(p) if r.chance(3, 4) => p.clone(), _ => gen::pattern(r) };
-        let tag = r.pick(gen::TAGS);
+        let tag = r.pick(RULE_TAGS);
         v.push(match r.below(7) {
             0 => format!("{}$tag={}", pat, tag),
             1 => format!("@@{}$tag={}", pat, tag),
